@@ -164,7 +164,10 @@ pub fn bytes_to_escaped_string_ex(bytes: &[u8], offset: usize, escapes: &[i64], 
             } else {
                 ans += "\\";
             }
-        } else if escapes.contains(&(bytes[idx] as i64)) || bytes[idx] > 254 || bytes[idx] < 128 {
+        } else if escapes.contains(&(bytes[idx] as i64)) || bytes[idx] > 254 || bytes[idx] <= 128
+            || (bytes[idx] >= 225 && bytes[idx] <= 250) || (bytes[idx] == 162 && terminator.contains(&0x29)) {
+            // besides the configured escapes: positive ASCII, negative NUL, negative lower case (the tokenizer
+            // capitalizes plain text), and a negative quote inside a string can only be written as escapes
             let mut temp = String::new();
             write!(&mut temp,"\\x{:02x}",bytes[idx]).expect("unreachable");
             ans += &temp;
